@@ -128,9 +128,14 @@ class TagA2(TagA1):
   """subsubtag"""
 
 
+class NTSub(NT):
+  """A subclass of a NamedTuple class (the usual way to add methods): still a NamedTuple container."""
+  __slots__ = ()
+
+
 CALLABLES = [fa, fb, fc, fd, fe, fg, fh, Ka, Kb, Kc, Dc]
 TAGS = [TagA, TagB, TagA1, TagA2]
-for _c in CALLABLES + [NT, Color] + TAGS:
+for _c in CALLABLES + [NT, NTSub, Color] + TAGS:
   _c.__module__ = "harness.l2"
 
 
@@ -348,7 +353,10 @@ class Encoder:
       return f"(NPartialObj {g_N(self.intern(name))} {pos} {kw})", "partialobj"
     if isinstance(v, collections.defaultdict):
       f = self.atom(v.default_factory)
-      kvs = g_list([g_pair(self.key_atom(k), self.ref(x)) for k, x in v.items()])
+      items = list(v.items())
+      if self.sort_dicts:
+        items.sort(key=lambda kv: (type(kv[0]).__name__, repr(kv[0])))
+      kvs = g_list([g_pair(self.key_atom(k), self.ref(x)) for k, x in items])
       return f"(NDefaultDict {f} {kvs})", "defaultdict"
     if isinstance(v, dict):
       items = list(v.items())
@@ -453,7 +461,7 @@ def gen_args_for(rng, fn, pick):
       kwargs[pname] = pick()
     if kind == "VarKw" and rng.random() < 0.6:
       for _ in range(rng.randint(1, 2)):
-        kwargs[rng.choice(["x", "y", "z"])] = pick()
+        kwargs[rng.choice(["x", "y", "z", "args"])] = pick()   # "args": spelled like fb's *args parameter
   return args, kwargs
 
 
@@ -498,7 +506,7 @@ def gen_dag(rng: random.Random, size: int, *, buildable_types=("Config", "Partia
       keys = rng.sample(["a", "b", "c", "k1", 3, 7, "", "x y"], rng.randint(0, 3))
       node = {k: pick() for k in keys}
     elif r < 0.94:
-      node = NT(pick(), pick())
+      node = (NT if rng.random() < 0.7 else NTSub)(pick(), pick())
     else:
       node = collections.defaultdict(list, {k: pick() for k in rng.sample(["a", "b"], rng.randint(0, 2))})
     pool.append(node)
